@@ -160,6 +160,21 @@ func build(p *propCfg, dir string, race bool) (string, int) {
 		args = append(args, "-race")
 		bin += "_race"
 	}
+	if r := repoRoot(); r != "/repo" {
+		// development aid (never used by the registered commands): check a scratch copy of the
+		// repository without touching /repo, through an alternative go.mod
+		gm, err := os.ReadFile(filepath.Join(verifRoot, "go.mod"))
+		if err != nil {
+			fmt.Fprintln(os.Stderr, err)
+			return "", 3
+		}
+		alt := filepath.Join(dir, "alt.mod")
+		os.WriteFile(alt, []byte(strings.Replace(string(gm), "=> /repo", "=> "+r, 1)), 0o644)
+		if sum, err := os.ReadFile(filepath.Join(verifRoot, "go.sum")); err == nil {
+			os.WriteFile(filepath.Join(dir, "alt.sum"), sum, 0o644)
+		}
+		args = append(args, "-modfile", alt)
+	}
 	args = append(args, "-o", bin, "./harness/"+p.Harness)
 	cmd := exec.Command("go", args...)
 	cmd.Env = env()
